@@ -10,6 +10,8 @@ import (
 	"reflect"
 	"unsafe"
 
+	"github.com/quic-go/quic-go/http3"
+
 	verif "github.com/zishang520/engine.io/v2/internal/zzverif"
 	wt "github.com/zishang520/webtransport-go"
 )
@@ -31,6 +33,12 @@ func mWtServerUpgrade(s *wt.Server, w http.ResponseWriter, r *http.Request) (*wt
 //verif:model (*github.com/zishang520/webtransport-go.Session).RemoteAddr
 func mWtRemoteAddr(s *wt.Session) net.Addr { return FakeAddr{} }
 
+// stubQConn: the QUIC connection of a stub session; only the addresses are ever asked for.
+type stubQConn struct{ http3.Connection }
+
+func (*stubQConn) RemoteAddr() net.Addr { return FakeAddr{} }
+func (*stubQConn) LocalAddr() net.Addr  { return FakeAddr{} }
+
 // AcceptedStream is the bidirectional stream the next AcceptStream call returns.
 var AcceptedStream wt.Stream
 
@@ -50,5 +58,8 @@ func StubSession() *wt.Session {
 	s := &wt.Session{}
 	f := reflect.ValueOf(s).Elem().FieldByName("closeErr")
 	reflect.NewAt(f.Type(), unsafe.Pointer(f.UnsafeAddr())).Elem().Set(reflect.ValueOf(error(&modelErr{"session closed (stub)"})))
+	// a peer address, so that a real session object can be built on the stub (socket.Construct caches it)
+	q := reflect.ValueOf(s).Elem().FieldByName("qconn")
+	reflect.NewAt(q.Type(), unsafe.Pointer(q.UnsafeAddr())).Elem().Set(reflect.ValueOf(&stubQConn{}))
 	return s
 }
